@@ -36,10 +36,12 @@ MANIFEST_TEXT = {
     },
 }
 
-_PENDING = "check not built yet in this session (work in progress; see DESIGN.md section 5 for the planned harnesses)"
+_PENDING = "no check built (see DESIGN.md)"
 NOT_APPLICABLE = {
     "C03": "asymptotic convergence rate over unbounded float trajectories: needs whole multi-iteration solve runs (one iteration of the trivial game is a 23M-variable formula) and an induction over T; proof-assistant territory, not bounded solving (DESIGN.md C03)",
     "C04": "probabilistic statement over thousands of iterations; with draws symbolic the solver quantifies over adversarial draw sequences, for which the statement is false by design (DESIGN.md C04)",
+    "C01": "the evaluator (src/regret.rs: expected, optimal_deviations, next_infoset_search) walks the tree with explicit Vec stacks; CBMC's symbolic execution did not get through even `expected` on a 7-node tree in 10 minutes (symbolic Vec lengths turn every push/pop into a case split over all slots; 600 s, 72 loop unwindings, no solver call), and a MIR->SMT encoding of these nested data-dependent loops was not within reach; measured in DESIGN.md section 2",
+    "C11": "Game::from_root/init_recurse builds and, on every `?` path, drops heap Node trees: the mutually recursive drop glue (Node, Player, Chance, Box<[Node]>, [Node]) and the iterator-driven recursion are explored by CBMC at every drop site; the smallest rung (one node over <= 2 terminals, container model, per-function recursion limits via --unwindset) did not finish symbolic execution in 15 minutes in three configurations; measured in DESIGN.md section 2. Two contract violations found by reading (forgotten own action accepted; infoset with one action here and two there accepted) are reported in DESIGN.md section 6 but are not decided by a check",
     "C17": "depends on which byte strings serde_json / gambit-parser (nom, big rationals) reject and on process exit status and stream contents; symbolic execution of those parsers over a symbolic buffer is far beyond reach of Kani here (DESIGN.md C17)",
 }
 for _p in [f"C{i:02d}" for i in range(1, 20)]:
@@ -430,3 +432,30 @@ MANIFEST_TEXT["C16"] = {
     "text": "For every path through main the solver shows the decision tables equal the help text: -m maps to the library method of the same name, -d to the constructor of the same name, -t 0 to unlimited, -r/-p/-c are passed unchanged, the parser is chosen by --input-format, then by a .json/.efg extension, else by content; stdin/stdout are used iff the name is '-'; the pruned profile is printed exactly when its regret is strictly lower (all f64 pairs); the same object is serialised for every destination. Option-wiring slice only.",
     "note": "Level 'other'. That a JSON and a Gambit encoding convert to the same game, and thread-count independence, are outside (parsers; C06). Counterexamples are confirmed by running the built binary against Game::solve through the replay crate.",
 }
+
+REGISTRY["C12"] = {
+    "level": "model_checking",
+    "explanation": "Only the numeric invariances are decided, at the level of the traversal kernel and the update kernels (relational harnesses: two runs of the real code on related inputs, "
+                   "exact arithmetic): player mirror (exchange the players, negate payoffs => same regrets, negated value), payoff scaling by 2 (value, regret increments and bounds scale; "
+                   "matched strategy bit-identical). The structural invariances (chance weight rescaling, inserting/removing single-outcome and single-action nodes, renaming) live in "
+                   "Game::from_root, whose symbolic execution is out of reach (see C11), and are NOT claimed.",
+    "assumptions": ["trajectory-level invariance follows from the step relations by induction over iterations (argument, not a query)", "scaling by powers of two only (exact in binary floating point)"],
+    "harnesses": [
+        H("c12_step_mirror_and_scale", f"{VAN}::steps", "quick", functions=["vanilla::recurse_player"], pbfile="vsteps",
+          bounds="payoffs {-2,1,3}^2; strategy (1/4,3/4) or (1/2,1/2); reach in {1/4,1/2,1}^3", role="player mirror and payoff scaling of one traversal step (three runs compared)"),
+        H("c12_scale_match_and_bound", f"{DATA}::rmatch", "quick", functions=["RegretParams::regret_match", "RegretParams::cum_regret"],
+          bounds="3 integer regrets in [-8,8]; fallback weight in {+inf,-inf,0}; iteration 1..=16", role="regrets x2 => identical strategy, bound x2"),
+    ],
+}
+MANIFEST_TEXT["C12"] = {
+    "engine": "kani",
+    "technique": "bounded model checking (Kani/CBMC SAT) of relational harnesses: the real kernels run on related inputs and compared",
+    "text": "Partial: the solver decides the payoff-scaling and player-mirror relations for one traversal step and for regret matching / the reported bound, for all inputs on exact grids. Invariance under re-presentation of the tree (weight rescaling, degenerate nodes, renaming) depends on Game::from_root, which could not be encoded, and is not claimed; neither is the trajectory-level statement.",
+    "note": "Step-level relations only; the constructor part of this property is outside (see not_applicable reason of C11 and DESIGN.md).",
+}
+
+_CACHED = H("c06_recurse_multi_chance_and_cached_root", f"{VAN}::steps", "quick", functions=["vanilla::recurse_multi (cache lookup, chance arm)", "<FullChance as ChanceRecurse>::next_nodes"], pbfile="vsteps",
+            bounds="chance node (1/4, 3/4) over two children served from a harness-defined payoff cache; cached values in {-2,1,3}; unwind 3",
+            role="a cached node returns its cached payoff without descending; chance value = probability-weighted sum over every outcome")
+REGISTRY["C06"]["harnesses"].append(_CACHED)
+REGISTRY["C08"]["harnesses"].append(_CACHED)
